@@ -179,6 +179,13 @@ impl DlLifecycle {
                     *sh.mhandle.lock() = None;
                     return;
                 }
+                Some(DOp::C(Ctl::Reconnect)) => {
+                    // the write that will fail (the harness has dropped the output's reader)
+                    match sh.kind {
+                        Kind::Value => Write::Set(-1),
+                        Kind::Map => Write::Upd(0, -1),
+                    }
+                }
                 Some(DOp::C(Ctl::Stop)) => {
                     if let Some(h) = sh.vhandle.lock().as_mut() {
                         h.stop();
@@ -222,6 +229,8 @@ pub struct HostedSys {
     #[allow(dead_code)]
     pub shared: Arc<HostShared>,
     pub setup_error: Option<String>,
+    in_cap: usize,
+    pub reconnects: usize,
 }
 
 const OUT_CAP: usize = 1 << 16;
@@ -238,6 +247,11 @@ impl HostedSys {
             vhandle: Mutex::new(None),
             mhandle: Mutex::new(None),
             refused: Mutex::new(0),
+        });
+        let sh_hook = shared.clone();
+        shared.rec.set_hook(move || {
+            *sh_hook.vhandle.lock() = None;
+            *sh_hook.mhandle.lock() = None;
         });
         let lifecycle = DlLifecycle { shared: shared.clone() };
         let agent = AgentModel::new(DlAgent::default, lifecycle.into_lifecycle());
@@ -283,6 +297,8 @@ impl HostedSys {
             out_rx,
             shared,
             setup_error,
+            in_cap: cfg.in_cap,
+            reconnects: 0,
         }
     }
 }
@@ -314,6 +330,28 @@ impl Sys for HostedSys {
                 self.sim.remotes[0].send("ctl", Req::Command(idx.to_string().into_bytes()));
             }
             Ctl::DropOutput => {}
+            Ctl::Reconnect => {
+                self.out_rx = None;
+                self.sim.remotes[0].send("ctl", Req::Command(idx.to_string().into_bytes()));
+                self.sim.settle();
+                match self.sim.link_rx.try_recv() {
+                    Ok(LinkRequest::Downlink(req)) => {
+                        let (ntx, nrx) = byte_channel(nz(self.in_cap));
+                        let (otx, orx) = byte_channel(nz(OUT_CAP));
+                        if req.promise.send(Ok((otx, nrx))).is_err() {
+                            self.setup_error = Some("the agent dropped the reconnect promise".into());
+                        }
+                        self.in_tx = Some(ntx);
+                        self.out_rx = Some(orx);
+                        self.reconnects += 1;
+                    }
+                    _ => {
+                        self.setup_error =
+                            Some("no new downlink request after a failed write (terminate_on_unlinked = false)".into());
+                    }
+                }
+                self.sim.settle();
+            }
         }
     }
 
